@@ -37,3 +37,7 @@ def run(chk):
   for need in ('ListInsert:ok', 'ListDel:ok', 'DictSet:ok', 'Rebind:ok', 'Clone:ok', 'ListReverse:ok',
                'ListSetSlice:ok', 'ListExtend:ok', 'DictUpdate:ok', 'JsonRoundTrip:ok'):
     chk.require(hits.get(need, 0) > 0, f'vacuous: no replayed step {need}')
+
+
+def replay(chk, path):
+  symtree_check.replay_file(chk, path, CLAUSES, None)
